@@ -38,7 +38,7 @@ type zzRevoked struct {
 func zzRunC04(r *simcore.Run) {
 	cfg := chansim.DrawConfig(r.Tape)
 	cfg.NoRevLogAmt = r.Tape.CfgDraw(3) == 0
-	mode := chansim.Mode{Cuts: r.Tape.CfgDraw(2) == 0, MaxSteps: 50 + 30*r.Tape.CfgDraw(3), MaxHtlcs: []int{4, 8, 14}[r.Tape.CfgDraw(3)]}
+	mode := chansim.Mode{Cuts: r.Tape.CfgDraw(2) == 0, MaxSteps: 50 + 30*r.Tape.CfgDraw(3), MaxHtlcs: []int{4, 8, 14}[r.Tape.CfgDraw(3)], MediumDen: 48, MediumHtlcs: 40, MediumSteps: 2}
 	withSpendTxOnly := cfg.NoRevLogAmt
 	r.Arm = fmt.Sprintf("%s/amt=%v/cuts=%v", cfg.TypeName, !cfg.NoRevLogAmt, mode.Cuts)
 	var revoked []*zzRevoked
